@@ -64,6 +64,12 @@ def gen_cases(rng, tier):
 		if i % 4 == 0:
 			parts = [p for p in (NAME_RE.fullmatch(q) and q for q in parts) if p] or ['a']
 		cases.append({'kind': 'path', 'fqn': '.'.join(parts)})
+	# the same part name at several levels (each level is hashed with the id of the level before it, not of its first occurrence)
+	for fqn in ['a.a', 'a.a.a', 'a.b.a', 'a.b.b', 'b.a.b.a', 'token.token', 'cat.token.cat', 'x.y.z.x', 'x.x.y', 'abc.abc.abc.abc', 'a.b.c.d.a']:
+		cases.append({'kind': 'path', 'fqn': fqn})
+	for i in range(max(6, n // 10)):
+		parts = [rng.choice(['a', 'b', 'ab', 'x1']) for _ in range(rng.randrange(2, 6))]
+		cases.append({'kind': 'path', 'fqn': '.'.join(parts)})
 	for i in range(n):
 		cases.append({'kind': 'validname', 'name': rand_name(rng)})
 	# deterministic boundary corpus: one control / whitespace character around an otherwise valid name (regex-anchor and strip() slips)
